@@ -64,13 +64,16 @@ Dec(s) == IF Len(s) = 0 THEN 0 - 1 ELSE DecFrom(s, 1, 0)
 (*  define the numeral; a leading "+" sign is NOT a numeral)               *)
 (* (hfs build of the crate only: "hfs", the hybrid-forward-secrecy modifier) *)
 ModKindH(m, hfsBuild) ==
-  IF m = "fallback" THEN [ok |-> TRUE, kind |-> "fallback", n |-> 0]
-  ELSE IF hfsBuild /\ m = "hfs" THEN [ok |-> TRUE, kind |-> "hfs", n |-> 0]
+  IF m = "fallback" THEN [ok |-> TRUE, kind |-> "fallback", n |-> 0, canon |-> TRUE]
+  ELSE IF hfsBuild /\ m = "hfs" THEN [ok |-> TRUE, kind |-> "hfs", n |-> 0, canon |-> TRUE]
   ELSE IF Len(m) >= 3 /\ SubSeq(m, 1, 3) = "psk"
-       THEN LET v == Dec(SubSeq(m, 4, Len(m))) IN
-            IF v >= 0 /\ v <= 255 THEN [ok |-> TRUE, kind |-> "psk", n |-> v]
-            ELSE [ok |-> FALSE, kind |-> "badpsk", n |-> 0]
-  ELSE [ok |-> FALSE, kind |-> "unknown", n |-> 0]
+       THEN LET num == SubSeq(m, 4, Len(m))
+                v == Dec(num) IN
+            \* canon: the numeral is written without leading zeros.  The property does not define the numeral, so a
+            \* name whose only oddity is a non-canonical numeral may be accepted (naming that index) OR rejected.
+            IF v >= 0 /\ v <= 255 THEN [ok |-> TRUE, kind |-> "psk", n |-> v, canon |-> (Len(num) = 1 \/ SubSeq(num, 1, 1) # "0")]
+            ELSE [ok |-> FALSE, kind |-> "badpsk", n |-> 0, canon |-> TRUE]
+  ELSE [ok |-> FALSE, kind |-> "unknown", n |-> 0, canon |-> TRUE]
 ModKind(m) == ModKindH(m, FALSE)
 KemNames == {"Kyber1024"}
 
@@ -107,7 +110,8 @@ ParseNameH(s, hfsBuild) ==
   ELSE IF dh \notin DhNames \/ parts[4] \notin CipherNames \/ parts[5] \notin HashNames THEN Bad
   ELSE IF fp # 0 /\ kem \notin KemNames THEN Bad
   ELSE IF ishfs # (fp # 0) THEN Bad
-  ELSE [ok |-> TRUE, pat |-> pat, mods |-> mods, dh |-> dh, kem |-> kem, cipher |-> parts[4], hash |-> parts[5]]
+  ELSE [ok |-> TRUE, pat |-> pat, mods |-> mods, dh |-> dh, kem |-> kem, cipher |-> parts[4], hash |-> parts[5],
+        lenient |-> \E i \in 1..Len(mstr) : ~mk[i].canon]
 ParseName(s) == ParseNameH(s, FALSE)
 
 ValidName(s) == ParseName(s).ok
